@@ -99,7 +99,7 @@ def run(ctx):
                     where(h, c), "consecutive failures are all retried after the same delay")
 
     # ---- R2 reset on success
-    r = ctx.rule("R2", "both success handlers reset delay and attempt count on every path", 4, "A")
+    r = ctx.rule("R2", "both success handlers reset delay and attempt count on every path", 6, "A")
     for h in (hor, hfr):
         ch = ctx.cfg(h)
         # the next request of a success path: every path that schedules/sends it has restored the counters before
@@ -113,6 +113,24 @@ def run(ctx):
             r.check(ok, "%s#reset(%s)" % (h.qname, attr), "success does not restore %s = %s before the next request is issued" % (attr, want),
                     where(h, h.node), "delays keep growing across successes / attempt limit reached by non-consecutive failures")
             early = [n for n in ns if any(n.id != l.id and l.id in ch.reach([n.id]) and not ch.dominates([l.id], n.id) for l in lazy)]
+            # the same for a reply that is taken apart by indexing / unpacking (which can fail: a reply without offsets):
+            # restored before that, a reply that cannot be used is retried as if every failure were the first
+            if h is hor:
+                tainted = {h.first_param()}
+                for _ in range(3):
+                    for x in walk_body_shallow(h.body):
+                        if isinstance(x, ast.Assign) and tainted & names_in(x.value):
+                            for t in x.targets:
+                                tainted |= {y.id for y in ast.walk(t) if isinstance(y, ast.Name)}
+                partial = [m for m in ch.nodes if m.stmt is not None and m.kind in ("stmt", "test") and any(
+                    (isinstance(y, ast.Subscript) and isinstance(y.ctx, ast.Load) and tainted & names_in(y.value)) or
+                    (isinstance(y, ast.Assign) and any(isinstance(t, (ast.Tuple, ast.List)) for t in y.targets) and not isinstance(y.value, (ast.Tuple, ast.List)) and
+                     tainted & names_in(y.value)) for y in m.walk())]
+                before = [n for n in ns if any(m.id != n.id and m.id in ch.reach([n.id], follow_exc=False) for m in partial)]
+                r.check(bool(partial) and not before, "%s#reset-after-the-reply-was-used(%s)" % (h.qname, attr),
+                        "%s is restored before the reply has been taken apart (lines %s can still raise)" % (attr, sorted({m.stmt.lineno for m in partial})),
+                        where(h, before[0].stmt if before else h.node), "every offset reply lacks the offsets: each failure looks like the first one - "
+                        "the same delay for ever, request_retry_max_attempts never reached")
             r.check(not early, "%s#reset-after-decode(%s)" % (h.qname, attr),
                     "%s is restored before the reply's messages have been decoded (they are decoded lazily, inside the loop)" % attr,
                     where(h, early[0].stmt if early else h.node), "a reply whose message set fails to decode (bad checksum) reaches the error "
@@ -364,6 +382,14 @@ def buffer_kernel(ctx, r):
 
 
 MUTANTS = [
+    {"id": "offset-reply-counters-restored-first", "file": "consumer.py",
+     "edits": [("consumer.py", "        # Successful request (with a reply we could use: one we cannot ends in\n        # _handle_offset_error), reset our retry delay, count, etc\n        self.retry_delay = self.retry_init_delay\n        self._fetch_attempt_count = 1\n        self._do_fetch()\n", "        self._do_fetch()\n"),
+               ("consumer.py", "        [response] = responses\n", "        self.retry_delay = self.retry_init_delay\n        self._fetch_attempt_count = 1\n        [response] = responses\n")],
+     "expect": "C14.R2", "note": "finding F48"},
+    {"id": "offset-reply-delay-restored-first", "file": "consumer.py",
+     "edits": [("consumer.py", "        self.retry_delay = self.retry_init_delay\n        self._fetch_attempt_count = 1\n        self._do_fetch()\n", "        self._fetch_attempt_count = 1\n        self._do_fetch()\n"),
+               ("consumer.py", "        [response] = responses\n", "        self.retry_delay = self.retry_init_delay\n        [response] = responses\n")],
+     "expect": "C14.R2", "note": "finding F48, the delay only"},
     {"id": "offset-handlers-side-by-side", "file": "consumer.py",
      "old": "            d.addCallback(self._handle_offset_response)\n            d.addErrback(self._handle_offset_error)\n        elif self._fetch_offset == OFFSET_COMMITTED:",
      "new": "            d.addCallbacks(self._handle_offset_response, self._handle_offset_error)\n        elif self._fetch_offset == OFFSET_COMMITTED:", "expect": "C14.R7", "note": "finding F45"},
